@@ -83,9 +83,17 @@ func runRing(op string) (out string) {
 			par[t[:1]] = t[2:]
 		}
 	}
+	// <canonical text>@<16 bytes hex>[@<the spelling given to the proxy>]
 	strip := func(a string) string {
-		if i := strings.IndexByte(a, '@'); i >= 0 {
-			return a[:i]
+		f := strings.Split(a, "@")
+		if len(f) == 3 {
+			return f[2]
+		}
+		return f[0]
+	}
+	canon := func(a string) string {
+		if ip := net.ParseIP(a); ip != nil {
+			return ip.String()
 		}
 		return a
 	}
@@ -161,10 +169,10 @@ func runRing(op string) (out string) {
 		}
 		oracle := map[string]string{v3uuid("127.0.0.1"): "127.0.0.1"}
 		if o.RPCAddr != "" {
-			oracle[v3uuid(o.RPCAddr)] = o.RPCAddr
+			oracle[v3uuid(canon(o.RPCAddr))] = canon(o.RPCAddr)
 		}
 		for _, pc := range o.Peers {
-			oracle[v3uuid(pc.RPCAddr)] = pc.RPCAddr
+			oracle[v3uuid(canon(pc.RPCAddr))] = canon(pc.RPCAddr)
 		}
 		parts := []string{"cols=" + strings.Join(cols, ","), fmt.Sprintf("n=%d", len(m.Data))}
 		if int(m.Metadata.ColumnCount) != len(m.Metadata.Columns) {
@@ -229,9 +237,15 @@ func genRing(e *emitter, r *rng.R, n int, tier string) {
 			list[k], list[len(list)-1] = list[len(list)-1], list[k]
 		}
 		withTokens := rr.Chance(1, 4)
+		// the same address can be written in several ways; what the proxy presents must not depend on the spelling
+		spell := map[string][]string{"::1": {"0:0:0:0:0:0:0:1", "0000::0001"}, "fe80::1": {"FE80::1", "fe80:0:0:0:0:0:0:1"}, "2001:db8::2": {"2001:0db8::0002", "2001:DB8:0:0::2"},
+			"2001:db8::10": {"2001:db8:0::10", "2001:0DB8::0010"}, "fd00::5": {"fd00:0:0:0:0:0:0:5", "FD00::5"}, "127.0.0.1": {"::ffff:127.0.0.1"}, "10.0.0.9": {"::ffff:10.0.0.9", "0:0:0:0:0:ffff:a00:9"}, "8.8.8.8": {"::FFFF:8.8.8.8"}}
 		ann := func(a string) string {
 			if a == "" {
 				return a
+			}
+			if alts := spell[a]; len(alts) > 0 && rr.Chance(1, 3) {
+				return a + "@" + hex.EncodeToString(net.ParseIP(a).To16()) + "@" + rr.Pick(alts)
 			}
 			return a + "@" + hex.EncodeToString(net.ParseIP(a).To16())
 		}
